@@ -548,9 +548,8 @@ func (w *world) start(i int, base string, staging bool, initPeers []peer.ID) *no
 			case <-cl.Done():
 			case <-ctx.Done():
 			case <-time.After(ipfscluster.ReadyTimeout + 60*time.Second):
-				if n.alive && !n.stuck && w.wedged() {
+				if n.alive && !n.stuck && w.raftBroken() {
 					n.stuck = true
-					w.run.Probe("not_judged_raft_wedged")
 				} else if n.alive && !n.stuck {
 					n.stuck = true
 					w.run.Violate("C17/gave_up_but_never_stopped", "", "%s did not become ready within ReadyTimeout (%v); 60 s later it is neither ready nor shut down", n.who, ipfscluster.ReadyTimeout)
@@ -784,6 +783,24 @@ func (w *world) quiet() bool { return w.faultsActive == 0 }
 // need the leader hang or fail and Shutdown can wait behind them for ever; none
 // of that is ipfs-cluster's doing, so progress, agreement and termination are not
 // judged from then on (sticky).
+// raftBroken: Raft itself can no longer be expected to make progress - the
+// snapshot-install loop (wedged), or a voter that came back with an empty log
+// (amnesia, see joinOp): a leader elected with that voter's help lacks committed
+// entries, the others reject what it sends for ever, and a configuration change
+// it starts - the leave inside Shutdown - is never committed while its heartbeats
+// keep it leader. Clauses about a peer stopping in bounded time are not judged.
+func (w *world) raftBroken() bool {
+	if w.wedged() {
+		w.run.Probe("not_judged_raft_wedged")
+		return true
+	}
+	if w.amnesia {
+		w.run.Probe("stopping_not_judged_after_amnesiac_rejoin")
+		return true
+	}
+	return false
+}
+
 func (w *world) wedged() bool {
 	if w.wedgedSeen {
 		return true
@@ -1459,8 +1476,7 @@ func (w *world) judgeRemoved(n *node, knows bool) {
 		if !w.quiet() {
 			return
 		}
-		if w.wedged() {
-			w.run.Probe("not_judged_raft_wedged")
+		if w.raftBroken() {
 			w.zombies = true
 			return
 		}
@@ -1535,9 +1551,7 @@ func (w *world) stopOp(s Step) {
 			buf := make([]byte, 16<<20)
 			os.Stderr.Write(buf[:runtime.Stack(buf, true)])
 		}
-		if w.wedged() {
-			w.run.Probe("not_judged_raft_wedged")
-		} else {
+		if !w.raftBroken() {
 			w.run.Violate("C17/shutdown_never_returns", "", "Shutdown of %s has not returned after 120 s (ready=%v)", n.who, n.readySeen)
 		}
 		n.alive = false
